@@ -153,6 +153,27 @@ example : ObjOnly [("T", Macro.obj [tk "U", tk "T"]), ("U", .obj [tk "T", tk "U"
     NoHash [tk "T", tk "U"] ∧
     bound [("T", Macro.obj [tk "U", tk "T"]), ("U", .obj [tk "T", tk "U"])] [tk "T", tk "U"] = 14 := by decide
 
+/-! ## `subst` against C11 6.10.3.1–6.10.3.3 -/
+
+/-- what the property compares: kind and spelling of every token (stringized text included) -/
+def spell (ts : List Tok) : List (Kind × String) := ts.map fun t => (t.kind, t.text)
+
+/-- `subst` of the model for a function-like macro, run with a pure pre-expander `full` (the complete macro
+    replacement of an argument as if it were the rest of the file) -/
+def modelSubst (lx : String → LexOne) (full : List Tok → List Tok) (body : List Tok) (args : List MacroArg) :
+    Except Err (List Tok) :=
+  (subst lx (fun st ts => .ok (full ts, st)) {} body args false).map (·.1)
+
+/-- **C09 (substitution), full statement**: whenever C11 6.10.3.1–6.10.3.3 (Spec/PPSpec.lean, with placemarkers)
+    defines the replacement of an invocation, `subst` produces exactly those spellings — for every lexer, every
+    pre-expander, every replacement list and every argument list.  FALSE for chibicc: see
+    `Findings.C09.C09_finding_placemarker` (known finding C09-placemarker) and
+    `Findings.C09.C09_finding_stringize_backslash` (known finding C09-stringize-backslash-outside-literal). -/
+def C09_subst_spec_Statement : Prop :=
+  ∀ (lx : String → LexOne) (full : List Tok → List Tok) (body : List Tok) (args : List MacroArg) (s : List Tok),
+    ChibiVerif.Spec.PPSpec.subst lx full true body args = .ok s →
+      ∃ m, modelSubst lx full body args = .ok m ∧ spell m = spell s
+
 /-! ## `__COUNTER__` -/
 
 /-- **C09 (`__COUNTER__`).**  `n` occurrences of `__COUNTER__` expand, in order, to `c, c+1, …, c+n-1` where `c` is
